@@ -206,6 +206,22 @@ pub fn run(tier: Tier) -> i32 {
                 one_stream(&ctx, acc, l, &lang, syms)
             }
         }));
+        // function words (articles, half, dozen, pair ...) and the word-like literals of the current source tree that no
+        // alphabet knows, with a small core of number words, depth 3
+        {
+            let c = vocab::cls(l);
+            let mut fw: Vec<String> = vec![c.one.clone(), c.tens.clone(), c.hundred.clone(), c.ordinary.clone(), c.conj.clone(), ",".to_string()];
+            for w in vocab::function_words(l).iter().map(|x| x.to_string()).chain(vocab::new_source_literals(l).into_iter().filter(|w| !w.contains(' '))) {
+                if !fw.contains(&w) {
+                    fw.push(w);
+                }
+            }
+            total.merge(explore::all_sequences2(&fw, 3, |syms, acc| {
+                if syms.len() == 3 {
+                    one_stream(&ctx, acc, l, &lang, syms)
+                }
+            }));
+        }
         // long streams: every pattern of <= 2 class symbols repeated r times
         total.merge(explore::all_repetitions(&cls, 2, 2..=rmax, |syms, acc| one_stream(&ctx, acc, l, &lang, syms)));
         total.sample(json!({"lang": l.code(), "stream": cls.iter().take(5).collect::<Vec<_>>()}));
